@@ -21,12 +21,29 @@ fn run_tree_paths<Tr: TreeApi>(rep: &mut Rep, spec: &SeqSpec, budget: usize) {
     let rng = Rng::new(spec.seed ^ 0xC19);
     let o = BatOpts::new(budget);
     let mut built: Vec<(u8, Tr, Digest)> = Vec::new();
+    let mut fresh_clone: Option<Tr> = None;
     for path in 0..3u8 {
         if let Some(t) = guarded_build::<Tr>(rep, &data, path) {
+            if path == 0 {
+                // a copy taken before the original answers any query
+                fresh_clone = Some(t.clone());
+            }
             let mut r = rng.clone();
-            let d = tree_battery(rep, &t as &dyn DynTree<Tr::Item>, &m, &mut r, &o);
+            // the value built through the last path is compared while it has never been queried
+            let d = if path < 2 { tree_battery(rep, &t as &dyn DynTree<Tr::Item>, &m, &mut r, &o) } else { Digest::default() };
             built.push((path, t, d));
         }
+    }
+    if let (Some(fc), Some((_, t0, _))) = (fresh_clone.as_ref(), built.first()) {
+        chk!(rep, "queried value == its never-queried clone", n, Exp::Is(true), t0 == fc);
+        chk!(rep, "never-queried clone == queried value", n, Exp::Is(true), fc == t0);
+    }
+    if !Tr::KIND.is_huff() && built.len() == 3 {
+        chk!(rep, "queried value == never-queried value built by another path", n, Exp::Is(true), built[0].1 == built[2].1);
+    }
+    if built.len() == 3 {
+        let mut r = rng.clone();
+        built[2].2 = tree_battery(rep, &built[2].1 as &dyn DynTree<Tr::Item>, &m, &mut r, &o);
     }
     for i in 1..built.len() {
         let (pa, ta, da) = &built[0];
@@ -134,8 +151,18 @@ fn run_quad_paths<Q: QuadApi>(rep: &mut Rep, spec: &QuadSpec, budget: usize) {
     let rng = Rng::new(spec.seed ^ 0xC19);
     let o = VecOpts { budget, unchecked: false, invalid: true };
     let built: Vec<Q> = (0..4u8).map(|p| build_quad::<Q>(&data, p)).collect();
+    let fresh = built[0].clone();
     let mut ds = Vec::new();
-    for q in &built {
+    {
+        let mut r = rng.clone();
+        ds.push(quad_battery(rep, &built[0], &m, &mut r, &o));
+    }
+    // equality must not depend on which side has already answered queries
+    chk!(rep, "queried value == its never-queried clone", (Q::NAME, n), Exp::Is(true), built[0] == fresh);
+    for i in 1..4 {
+        chk!(rep, "queried value == never-queried value built by another path", (Q::NAME, i, n), Exp::Is(true), built[0] == built[i]);
+    }
+    for q in &built[1..] {
         let mut r = rng.clone();
         ds.push(quad_battery(rep, q, &m, &mut r, &o));
     }
@@ -199,12 +226,16 @@ fn run_bit_paths(rep: &mut Rep, spec: &BitSpec, budget: usize) {
             let a = <$t>::new(bv.clone());
             let b = <$t>::from(bv.clone());
             let c = <$t>::new(BitVector::from(bits.iter().copied().collect::<BitVectorMut>()));
+            let fresh = a.clone();
             chk!(rep, "paths compare equal", ($name, "new/from", n), Exp::Is(true), a == b);
-            chk!(rep, "paths compare equal", ($name, "new/via BitVectorMut", n), Exp::Is(true), a == c);
-            chk!(rep, "clone == original", ($name, n), Exp::Is(true), a.clone() == a);
             let mut r1 = rng.clone();
             let mut r2 = rng.clone();
+            // `a` answers queries; b, c and the clone taken before have not: equality must not care
             let d1 = bin_battery(rep, &a, &m, &mut r1, &o);
+            chk!(rep, "queried value == never-queried value built by another path", ($name, "new/from", n), Exp::Is(true), a == b);
+            chk!(rep, "queried value == never-queried value built by another path", ($name, "new/via BitVectorMut", n), Exp::Is(true), a == c);
+            chk!(rep, "queried value == its never-queried clone", ($name, n), Exp::Is(true), a == fresh);
+            chk!(rep, "clone == original", ($name, n), Exp::Is(true), a.clone() == a);
             let d2 = bin_battery(rep, &b, &m, &mut r2, &o);
             chk!(rep, "paths answer identically (digest)", ($name, n), Exp::Is(d1), d2);
             for (what, v) in neighbours(&bits, spec.seed) {
@@ -224,10 +255,13 @@ fn run_bit_paths(rep: &mut Rep, spec: &BitSpec, budget: usize) {
                 let c: DArray<$s0> = m.ones.iter().copied().collect();
                 chk!(rep, "paths compare equal", ($name, "new/collect<usize>", n), Exp::Is(true), a == c);
             }
-            chk!(rep, "clone == original", ($name, n), Exp::Is(true), a.clone() == a);
+            let fresh = a.clone();
             let mut r1 = rng.clone();
             let mut r2 = rng.clone();
             let d1 = darray_battery(rep, &a, &m, &mut r1, &o);
+            chk!(rep, "queried value == never-queried value built by another path", ($name, n), Exp::Is(true), a == b);
+            chk!(rep, "queried value == its never-queried clone", ($name, n), Exp::Is(true), a == fresh);
+            chk!(rep, "clone == original", ($name, n), Exp::Is(true), a.clone() == a);
             let d2 = darray_battery(rep, &b, &m, &mut r2, &o);
             chk!(rep, "paths answer identically (digest)", ($name, n), Exp::Is(d1), d2);
             for (what, v) in neighbours(&bits, spec.seed) {
